@@ -239,3 +239,73 @@ def check_C05(tier):
                 "reply streams with k continues")
     res.exhaustive = True
     return res.finish()
+
+
+def check_C03(tier):
+    res = Result("C03", tier, "model_checking")
+    vh = build_harness()
+    thorough = tier == "thorough"
+    consts = {"BugFirstDotR": False, "BugPrefixMatch": False, "MaxIfaces": 4 if thorough else 3, "Emit": True}
+    cfg = write_cfg(os.path.join(res.wd, "MC_Route.cfg"), constants=consts,
+                    invariants=["InvExact", "InvBuiltin", "InvMonotone", "EmitCase"])
+    r = run_tlc("MC_Route", cfg, res.wd, workers=4, tag="route")
+    res.add_tlc(r)
+    if r.violation:
+        res.tlc_violation(r, "MC_Route")
+    cases = r.replay
+    fails, summ, _ = run_vh(vh, ["route"], cases)
+    res.add_failures(fails, "route-replay")
+    res.traces += summ["executions"]
+    res.evaluations += summ["executions"]
+    res.nontrivial = {json.dumps([c["cfg"], c["m"]]) for c in cases if c["cfg"]}
+    for c in cases[100::1500]:
+        res.sample({"registered": [".".join(n) for n in c["cfg"]], "method": ".".join(c["m"]), "route": c["route"]})
+    # the Conn machine's dispatch uses the same table for the standard service (routing kinds of ConnRef)
+    rc = connref_cases(res, "full", 1, "full1")
+    replay_connref(res, vh, rc, ["mem"], "connref-replay")
+    res.rule = ("MC_Route: every configuration of <= 3/4 interfaces from a pool of 8 colliding names x ~100 method strings derived "
+                "from the names (registered, prefix, suffix, empty elements, leading/trailing dot, no dot, near-miss of the built-in); "
+                "harness multiplies by 5 flag sets x 7 parameter shapes x 2 registration orders; non-trivial = distinct (config, method) "
+                "with a non-empty configuration")
+    res.exhaustive = True
+    res.assumptions = ["an interface registered under the name org.varlink.service itself is a don't-care (shadowed by the built-in)"]
+    return res.finish()
+
+
+def check_C06(tier):
+    res = Result("C06", tier, "model_checking")
+    vh = build_harness()
+    thorough = tier == "thorough"
+    # (1) malformed symbols at every position: the machine closes, writes nothing for them, answers the prefix
+    conn_model(res, "wide" if thorough else "rep", 2, ["mem", "listen"], 1, "prop",
+               invariants=["MalformedSilent", "RefinesPrefix", "RefinesFinal", "NothingAfterEnd"])
+    # (2) every sequence over {6 malformed classes, representatives of the well-formed classes}
+    cases = connref_cases(res, "malformed", 3 if thorough else 2, "malformed")
+    with_m = [c for c in cases if any(r["k"] in ("BadJson", "BadUtf8", "WrongMemberType", "EmptyMsg", "NotObject", "NoMethod")
+                                      for r in c["reqs"])]
+    replay_connref(res, vh, cases, ["mem", "sock"] + (["tcp"] if thorough else []), "connref-replay")
+    res.nontrivial |= nontrivial(with_m, lambda c: True)
+    # (3) concretisation: systematic corruption operators, classified by the independent recogniser
+    fails, summ, _ = run_vh(vh, ["malformed", "--tier=" + tier], with_m, timeout=3000,
+                            env={"VERIF_CLASSIFY": os.path.join(VERIF, "bin", "classify.py")})
+    res.add_failures(fails, "corruption")
+    res.traces += summ["executions"]
+    res.evaluations += summ["executions"]
+    res.extra["mutants"] = summ["cases"]
+    res.extra["mutants_strict_malformed"] = summ["strict"]
+    res.extra["mutants_still_wellformed_or_uncertain"] = summ["relaxed"]
+    res.nontrivial_count = len(res.nontrivial) + summ["strict"]
+    for c in with_m[3::40][:4]:
+        res.sample({"reqs": sig_of(c["reqs"]), "expected_out": c["out"], "end": c["end"], "at": c["at"]})
+    # (4) a healthy connection beside faulty ones on the same listen() server
+    from .listen_checks import neighbours_stage
+    neighbours_stage(res, vh, thorough, faulty=True)
+    res.rule = ("TLC: malformed classes as alphabet symbols at every position of sequences <= 2/3; harness: per valid corpus request every "
+                "truncation, per-byte flip/delete/duplicate/insert(NUL,0xFF,quote,...), JSON value retyping/removal, nesting 1..10^4, empty, "
+                "1 MiB, random bytes, placed at the malformed position of the TLC contexts; non-trivial = distinct sequences with a malformed "
+                "symbol + mutants the independent recogniser classifies as certainly malformed (strict oracle)")
+    res.exhaustive = True
+    res.assumptions = ["bin/classify.py (Python json, RFC 8259) is the arbiter of well-formedness; mutants it cannot judge with certainty "
+                       "(\\u escapes, exponents, >100 nesting, top-level arrays, still well-formed requests) get the relaxed oracle",
+                       "valid JSON nested deeper than the decoder's limit may be answered or rejected-and-closed (both are containment)"]
+    return res.finish()
